@@ -428,9 +428,9 @@ def pretags(c):
 
 def subchecks(tier):
     return [
-        Sub("random", body, strategy=lambda: case(nmax=40), quick=600, thorough=15000, pretags=pretags),
+        Sub("random", body, strategy=lambda: case(nmax=40), quick=600, thorough=40000, pretags=pretags),
         Sub("all_topologies", body, enumerate=topo_cases, expand=expand_topo, exhaustive=(tier == "thorough"), pretags=pretags),
-        Sub("device_dtype", device_body, strategy=device_case, quick=300, thorough=4000, pretags=pretags),
-        Sub("float32", float32_body, strategy=float32_case, quick=200, thorough=3000, pretags=pretags),
-        Sub("smooth_shift", smooth_body, strategy=smooth_case, quick=200, thorough=3000, pretags=pretags),
+        Sub("device_dtype", device_body, strategy=device_case, quick=300, thorough=10000, pretags=pretags),
+        Sub("float32", float32_body, strategy=float32_case, quick=200, thorough=8000, pretags=pretags),
+        Sub("smooth_shift", smooth_body, strategy=smooth_case, quick=200, thorough=8000, pretags=pretags),
     ]
